@@ -81,6 +81,17 @@ def cases(tier, rng, schema, feats):
             add("authdata", flavour, (b"\x5a" * 32).hex(), "c1" if flavour == "mc" else "81", "%x" % rng.below(2**32),
                 ("00" * 16 + ":" + rng.bytes(rng.below(40)).hex() + ":" + "a0") if flavour == "mc" else "-",
                 gen.show(g.named_val(t, present=sub, focus=True)))
+    # members the SOURCE declares that the specification does not know (empty on the unchanged tree): a canonical map of the known
+    # members plus the new one, decoded and re-encoded - the output must still be canonical (independent checker) and equal the model's
+    for sname, key, val in gen.novel_members(schema, feats):
+        d = schema[sname]
+        if not (d.get("de") and d.get("ser")):
+            continue
+        for present in ("all", "none"):
+            tree = g.named_wire(sname, present=present)
+            pairs = [(k, v) for k, v in tree.pairs if k != key] + [(key, val)]
+            pairs.sort(key=lambda kv: (len(cbor.enc(kv[0])), cbor.enc(kv[0])))
+            add("reser", sname, cbor.enc(cbor.M(pairs)).hex())
     # the advertised algorithm list holds whatever identifiers the authenticator put there (any i32, duplicates included): every COSE
     # identifier in -70..7 and the range ends, alone, doubled and next to a supported one, stand-alone and inside GetInfo
     scan = list(range(-70, 8)) + [-259, -258, -257, -256, -65536, -65535, 23, 24, 255, 256, 65535, 65536, 2**31 - 1, -(2**31)]
